@@ -194,8 +194,12 @@ def lenM : V → R (UInt16 × V)
     let (ls, as') ← mapM2 Action.lenM as
     .ok (8 + sum16 ls, .obj "InstrActions" [h, p, .list as'])
   | _ => .panic
-def marshalM : V → R (Bytes × V)
-  | .obj "InstrActions" [h, .bytes pad, .list as] => do
+/-- `instr.Length = instr.Len()` first: the header carries the size of the CURRENT actions -/
+def marshalM (v : V) : R (Bytes × V) := do
+  let (l, v) ← lenM v
+  match v with
+  | .obj "InstrActions" [.obj "InstrHeader" [t, _], .bytes pad, .list as] => do
+    let h := V.obj "InstrHeader" [t, V.u16 l]
     let hb ← InstrHeader.bytes h
     let (bs, as', e) ← marshalList Action.marshalM as false
     if e then .err else .ok (hb ++ makeCopy 4 pad ++ bs, .obj "InstrActions" [h, .bytes pad, .list as'])
